@@ -327,8 +327,12 @@ func zeroLeaf(l Leaf) string {
 	}
 	// wrap arrays: ((as const (Array Int X)) z)
 	srt := l.Base
-	for range l.Dims {
+	for i := range l.Dims {
 		srt = sArr(sInt, srt)
+		if i == 0 && l.Base == sStr {
+			z = "STR_EMPTY_ARR"
+			continue
+		}
 		z = "((as const " + srt + ") " + z + ")"
 	}
 	return z
